@@ -74,7 +74,8 @@ def cases(draw):
         "chain_linearize": draw(st.booleans()),
         "mode": draw(st.sampled_from(MODES)),
         "matrix": matrix,
-        "lu": draw(st.booleans()),
+        # LU with a linear operator is a documented rejection: kept rare
+        "lu": draw(st.booleans()) if matrix == "matrix" else draw(st.integers(0, 7)) == 0,
         "solver": draw(st.sampled_from(LINEAR_SOLVERS)),
         "final": draw(st.sampled_from(["none", "none", "new_point", "all_pairs"])),
         "delta": {v["name"]: [draw(st.sampled_from([-0.5, 0.0, 0.25, 1.0])) for _ in range(v["size"])] for v in system["x"]},
@@ -113,11 +114,21 @@ def build_mda(p: dict, discs: list, info: dict):
     return mda, tag
 
 
-def reads_state_of_other_discipline(model: CoupledSystem, out_name: str) -> bool:
-    """Ledger class: the requested output belongs to a discipline reading a state variable of another discipline."""
-    i = model.producer[out_name]
-    states = {w for j, (w, _, _) in model.state_of.items() if j != i}
-    return bool(states.intersection(model.inputs_of[i]))
+def reads_state_of_other_discipline(model: CoupledSystem, out_name: str, transitively: bool = False) -> bool:
+    """Ledger class: the requested output belongs to a discipline reading a state variable of another discipline.
+
+    ``transitively`` (MDAChain with chain_linearize: the inner MDAs are linearised for the couplings they hand
+    downstream, then the chain rule is applied): ... or to a discipline downstream of such a discipline.
+    """
+    readers = {i for i in range(len(model.inputs_of))
+               if {w for j, (w, _, _) in model.state_of.items() if j != i}.intersection(model.inputs_of[i])}
+    if transitively:
+        succ = model.graph()
+        frontier = set(readers)
+        while frontier:
+            frontier = {k for i in frontier for k in succ[i]} - readers
+            readers |= frontier
+    return model.producer[out_name] in readers
 
 
 def reachable_outputs(model: CoupledSystem, x_name: str) -> set:
@@ -258,7 +269,8 @@ def compare(ctx, p, model, tag, jac, expected, in_names, out_names, label):
         for i, blk in row.items():
             if i not in model.x_offset:
                 continue
-            if model.state_of and reads_state_of_other_discipline(model, o) and ctx.known("function_reads_state_variable", count=False):
+            chained = tag.startswith("MDAChain") and p["chain_linearize"]
+            if model.state_of and reads_state_of_other_discipline(model, o, chained) and ctx.known("function_reads_state_variable", count=False):
                 ctx.cls("block_excluded:function_reads_state_variable")
                 continue
             arr = blk.toarray() if hasattr(blk, "toarray") else np.asarray(blk)
@@ -388,4 +400,4 @@ ORACLES = {"derivatives": case_derivatives}
 
 
 def run(ctx):
-    ctx.drive("derivatives", cases(), case_derivatives, quick=500, thorough=3000)
+    ctx.drive("derivatives", cases(), case_derivatives, quick=450, thorough=3000)
